@@ -220,7 +220,7 @@ func TestC10Split(t *testing.T) {
 
 // TestC10Sections: the checksum as the section writer and reader use it.
 func TestC10Sections(t *testing.T) {
-	rec := obs.NewRecorder("C10", "sections", "rapid: the checksum where the library uses it: PAT/PMT sections of every size written by writePSIData must end with the bitwise CRC-32/MPEG-2 of the bytes before it (the writer feeds the checksum piecewise; 40% after a write of the same section that the writer refused part-way); sections of the six table types with arbitrary bodies of 0..1000 bytes and the reference CRC must be accepted by the Demuxer, and rejected when one CRC bit is flipped, including two sections of equal length in a row (pooled buffer reuse); non-trivial = section longer than 64 bytes; distinct by section bytes")
+	rec := obs.NewRecorder("C10", "sections", "rapid: the checksum where the library uses it: PAT/PMT sections of every size written by writePSIData (1..3 per unit, the struct's CRC32 field holding a stale value) must each end with the bitwise CRC-32/MPEG-2 of the bytes before it (the writer feeds the checksum piecewise; 40% after a write of the same section that the writer refused part-way); sections of the six table types with arbitrary bodies of 0..1000 bytes and the reference CRC must be accepted by the Demuxer, and rejected when one CRC bit is flipped, including two sections of equal length in a row (pooled buffer reuse); non-trivial = section longer than 64 bytes; distinct by section bytes")
 	defer rec.Flush()
 	rapid.Check(t, func(t *rapid.T) {
 		// writer
@@ -243,11 +243,28 @@ func TestC10Sections(t *testing.T) {
 			}
 			rec.Class("after_an_aborted_write")
 		}
+		// the CRC32 field of the struct is what the parser read, not an input of the writer: a stale value must not be written
+		sec.CRC32 = rapid.Uint32().Draw(t, "stalecrc")
 		var out bytes.Buffer
-		if _, err := astits.VerifWritePSIData(&out, &astits.PSIData{Sections: []*astits.PSISection{sec}}); err != nil {
+		nsec := 1 + gen.Uniform(t, 3, "nsections")
+		secs := []*astits.PSISection{sec}
+		for len(secs) < nsec {
+			secs = append(secs, sec)
+		}
+		if _, err := astits.VerifWritePSIData(&out, &astits.PSIData{Sections: secs}); err != nil {
 			t.Fatalf("writePSIData: %v", err)
 		}
 		w := out.Bytes()
+		if len(w) != 1+nsec*len(enc) {
+			t.Fatalf("writePSIData wrote %d bytes for %d sections of %d bytes", len(w), nsec, len(enc))
+		}
+		for k := 1; k < nsec; k++ {
+			// every section of the unit carries its own checksum, started afresh
+			if at := 1 + k*len(enc); ref.CRC32MPEG2(w[at:at+len(enc)]) != 0 {
+				t.Fatalf("section %d of %d written by writePSIData does not end with the CRC-32/MPEG-2 of its bytes: %x", k+1, nsec, w[at:at+len(enc)])
+			}
+		}
+		w = w[:1+len(enc)]
 		if len(w) < 5 || ref.CRC32MPEG2(w[1:]) != 0 {
 			t.Fatalf("section written by writePSIData (%d bytes; previous write aborted after %d bytes, -1 = none) does not end with the CRC-32/MPEG-2 of its bytes: %x", len(w)-1, aborted, w)
 		}
